@@ -41,7 +41,71 @@ def origin_keys(F, expr, dictvar, depth=0, seen=None):
     return keys, stripped
 
 
-def export_maps(run, r):
+def io_names(run, r):
+    """Local names of the exporter / importer, derived from structure (robust against renaming of locals)."""
+    xi = run.fn('_export_state_to_dict')
+    X = xi.node
+    rets = [n for n in q.walk(X, False) if isinstance(n, ast.Return) and isinstance(n.value, ast.Name)]
+    run.anchor(len(rets) == 1, r, 'single `return <dict>` in _export_state_to_dict')
+    data = rets[0].value.id
+    tdata = None
+    for c in q.calls(X):
+        if isinstance(c.func, ast.Attribute) and c.func.attr == 'append' and isinstance(strip_cast(c.func.value), ast.Subscript) \
+                and q.const_str(strip_cast(c.func.value).slice) == 'transitions' and c.args and isinstance(c.args[0], ast.Name):
+            tdata = c.args[0].id
+    run.anchor(tdata, r, "dict appended to <data>['transitions'] in _export_state_to_dict")
+    state_v = [st.targets[0].id for st in q.walk(X, False) if isinstance(st, ast.Assign) and isinstance(st.targets[0], ast.Name)
+               and isinstance(strip_cast(st.value), ast.Call) and 'Statechart.state_for' in q.callee_shorts(run, strip_cast(st.value))[0]]
+    run.anchor(len(state_v) == 1, r, 'local holding the exported state object')
+    trans_v = [lp.target.id for lp in q.walk(X, False) if isinstance(lp, ast.For) and isinstance(lp.target, ast.Name)
+               and any(isinstance(v, ast.Call) and 'Statechart.transitions_from' in q.callee_shorts(run, v)[0]
+                       for v in [strip_cast(lp.iter)] + [strip_cast(o) for o in q.local_origin(X, lp.iter)])]
+    run.anchor(len(trans_v) == 1, r, 'loop variable over the transitions of the exported state')
+    prio = None
+    for v, node in keys_written(X, tdata).get('priority', []):
+        if isinstance(v, ast.Name):
+            prio = v.id
+    ei = run.fn('export_to_dict')
+    E = ei.node
+    erets = [n for n in q.walk(E, False) if isinstance(n, ast.Return) and isinstance(n.value, ast.Dict) and len(n.value.values) == 1 and isinstance(n.value.values[0], ast.Name)]
+    run.anchor(len(erets) == 1, r, "return {'statechart': <dict>} in export_to_dict")
+    d = erets[0].value.values[0].id
+    ii = run.fn('import_from_dict')
+    I = ii.node
+    sdata = None
+    for st in q.walk(I, False):
+        if isinstance(st, ast.Assign) and isinstance(st.targets[0], ast.Tuple) and isinstance(strip_cast(st.value), ast.Call) \
+                and isinstance(strip_cast(st.value).func, ast.Attribute) and strip_cast(st.value).func.attr in ('pop', 'popleft') and isinstance(st.targets[0].elts[0], ast.Name):
+            sdata = st.targets[0].elts[0].id
+            work = dotted(strip_cast(st.value).func.value)
+    run.anchor(sdata, r, 'state dict popped from the worklist in import_from_dict')
+    si = run.fn('_import_state_from_dict')
+    S = si.node
+    sd = q.param_names(S)[0]
+
+    def local_from_key(F_, dv, key):
+        out = [st.targets[0].id for st in q.walk(F_, False) if isinstance(st, ast.Assign) and isinstance(st.targets[0], ast.Name)
+               and key in keys_read_expr(st.value, dv)]
+        return out[0] if out else None
+    ti = run.fn('_import_transition_from_dict')
+    td = q.param_names(ti.node)[1]
+    return {'data': data, 'tdata': tdata, 'state': state_v[0], 'transition': trans_v[0], 'statechart': q.param_names(X)[0], 'xprio': prio, 'd': d, 'sdata': sdata, 'work': work,
+            'stype': local_from_key(S, sd, 'type'), 'substates': local_from_key(S, sd, 'states'), 'parallel': local_from_key(S, sd, 'parallel states'),
+            'iprio': local_from_key(ti.node, td, 'priority'), 'sc_export': q.param_names(E)[0]}
+
+
+def keys_read_expr(expr, dv):
+    out = set()
+    for n in ast.walk(expr):
+        if isinstance(n, ast.Call) and isinstance(n.func, ast.Attribute) and n.func.attr == 'get' and isinstance(strip_cast(n.func.value), ast.Name) \
+                and strip_cast(n.func.value).id == dv and n.args and q.const_str(n.args[0]) is not None:
+            out.add(q.const_str(n.args[0]))
+        if isinstance(n, ast.Subscript) and isinstance(strip_cast(n.value), ast.Name) and strip_cast(n.value).id == dv and q.const_str(n.slice) is not None:
+            out.add(q.const_str(n.slice))
+    return out
+
+
+def export_maps(run, r, N):
     """-> {'state': {key: attr}, 'transition': {..}, 'contract': {..}, 'statechart': {..}}, plus kind tables."""
     fi = run.fn('_export_state_to_dict')
     F = fi.node
@@ -63,7 +127,7 @@ def export_maps(run, r):
             if len(attrs) == 1:
                 return attrs.pop()
         return None
-    for level, var in (('state', 'data'), ('transition', 'transition_data')):
+    for level, var in (('state', N['data']), ('transition', N['tdata'])):
         for k, vals in keys_written(F, var).items():
             for v, node in vals:
                 a = attr_of(v, F)
@@ -91,7 +155,7 @@ def export_maps(run, r):
             out['contract'].setdefault(q.const_str(n.keys[0]), set()).add(a)
             nodes[('contract', q.const_str(n.keys[0]))] = n
     ei = run.fn('export_to_dict')
-    for k, vals in keys_written(ei.node, 'd').items():
+    for k, vals in keys_written(ei.node, N['d']).items():
         for v, node in vals:
             a = attr_of(v, ei.node)
             out['statechart'].setdefault(k, set())
@@ -206,7 +270,8 @@ def check(run):
     prog = run.prog
     r1 = run.rule('C11.1', 'per level, keys written by the exporter = keys read by the importer = keys admitted by SCHEMA')
     schema = SchemaModel(run, r1)
-    exp, enodes = export_maps(run, r1)
+    N = io_names(run, r1)
+    exp, enodes = export_maps(run, r1, N)
     imp, strip, inodes = import_maps(run, r1)
     si = run.fn('_import_state_from_dict')
     ti = run.fn('_import_transition_from_dict')
@@ -216,7 +281,7 @@ def check(run):
     sd = q.param_names(si.node)[0]
     td = q.param_names(ti.node)[1]
     read = {
-        'state': set(keys_read(si.node, sd)) | set(keys_read(ii.node, 'state_data')),
+        'state': set(keys_read(si.node, sd)) | set(keys_read(ii.node, N['sdata'])),
         'transition': set(keys_read(ti.node, td)),
         'statechart': set(keys_read(ii.node, q.param_names(ii.node)[0])),
     }
@@ -227,9 +292,9 @@ def check(run):
     read['contract'] = cread & {'before', 'after', 'always'} | (cread - {'before', 'after', 'always'})
     read['statechart'].discard('statechart')
     written = {
-        'state': set(keys_written(xi.node, 'data')),
-        'transition': set(keys_written(xi.node, 'transition_data')),
-        'statechart': set(keys_written(ei.node, 'd')),
+        'state': set(keys_written(xi.node, N['data'])),
+        'transition': set(keys_written(xi.node, N['tdata'])),
+        'statechart': set(keys_written(ei.node, N['d'])),
         'contract': set(exp['contract']),
     }
     sch = {'state': set(schema.levels.get('state', {})), 'transition': set(schema.levels.get('transition', {})),
@@ -265,13 +330,13 @@ def check(run):
         if not prog.is_subclass(cname, 'StateMixin'):
             continue
         applicable = set()
-        for k, vals in keys_written(xi.node, 'data').items():
+        for k, vals in keys_written(xi.node, N['data']).items():
             for v, node in vals:
                 okk = True
                 for a in guard_atoms(node):
                     txt = a[1].replace(' ', '')
-                    if txt.startswith('isinstance(state,'):
-                        klass = txt[len('isinstance(state,'):-1]
+                    if txt.startswith('isinstance(%s,' % N['state']):
+                        klass = txt[len('isinstance(%s,' % N['state']):-1]
                         sub = prog.is_subclass(cname, klass)
                         if (a[0] == 'truthy' and not sub) or (a[0] == 'falsy' and sub):
                             okk = False
@@ -290,7 +355,7 @@ def check(run):
             at = guard_atoms(node)
             vals = exp[level].get(k, set())
             for a in at:
-                if a[0] == 'truthy' and '.' in a[1] and a[1].split('.')[0] in ('state', 'transition', 'statechart') and vals and a[1].count('.') == 1:
+                if a[0] == 'truthy' and '.' in a[1] and a[1].split('.')[0] in (N['state'], N['transition'], N['sc_export'], N['statechart']) and vals and a[1].count('.') == 1:
                     run.check(a[1].split('.')[1] in vals, r2, 'exporter', "'%s' exported when its own attribute is set" % k, 'guarded by %s' % a[1], node)
 
     r3 = run.rule('C11.3', 'kind maps are inverse: type strings <-> state classes, children key <-> composite class, symbolic priorities <-> constants; same strings in SCHEMA')
@@ -299,18 +364,19 @@ def check(run):
         if isinstance(c.func, ast.Name) and prog.has_cls(c.func.id) and prog.is_subclass(c.func.id, 'StateMixin'):
             at = guard_atoms(c)
             for a in at:
-                if a[0] == '==' and 'stype' in (a[1], a[2]):
-                    lit = a[2] if a[1] == 'stype' else a[1]
+                if a[0] == '==' and N['stype'] in (a[1], a[2]):
+                    lit = a[2] if a[1] == N['stype'] else a[1]
                     imp_types[lit.strip("'")] = c.func.id
-                if a[0] == 'truthy' and a[1] in ('substates', 'parallel_substates'):
+                if a[0] == 'truthy' and a[1] in (N['substates'], N['parallel']):
                     key = list(origin_keys(si.node, ast.Name(id=a[1], ctx=ast.Load()), sd)[0])
                     if key:
                         imp_types['children:' + key[0]] = c.func.id
     exp_types = {}
     for k in ('type', 'states', 'parallel states'):
-        for v, node in keys_written(xi.node, 'data').get(k, []):
+        for v, node in keys_written(xi.node, N['data']).get(k, []):
             at = guard_atoms(node)
-            cls = [a[1].replace(' ', '')[len('isinstance(state,'):-1] for a in at if a[0] == 'truthy' and a[1].replace(' ', '').startswith('isinstance(state,')]
+            pre = 'isinstance(%s,' % N['state']
+            cls = [a[1].replace(' ', '')[len(pre):-1] for a in at if a[0] == 'truthy' and a[1].replace(' ', '').startswith(pre)]
             cls = [c_ for c_ in cls if not c_.endswith('Mixin')]
             if k == 'type':
                 lit = q.const_str(v)
@@ -326,19 +392,20 @@ def check(run):
     run.check(st_enum is not None and sorted(st_enum) == tys and not other, r3, 'SCHEMA', 'SCHEMA type enumeration = %s' % tys, 'schema admits %s / %s' % (st_enum, other), schema.node)
     # priorities
     pr_imp = {}
-    for st, v in q.assigned_value(ti.node, 'priority'):
+    for st, v in q.assigned_value(ti.node, N['iprio'] or '?'):
         at = guard_atoms(st)
         for a in at:
-            if a[0] == '==' and 'priority' in (a[1], a[2]):
-                lit = (a[2] if a[1] == 'priority' else a[1]).strip("'")
+            if a[0] == '==' and N['iprio'] in (a[1], a[2]):
+                lit = (a[2] if a[1] == N['iprio'] else a[1]).strip("'")
                 pr_imp[lit] = q.unparse(v)
     pr_exp = {}
-    for st, v in q.assigned_value(xi.node, 'priority'):
+    tprio = N['transition'] + '.priority'
+    for st, v in q.assigned_value(xi.node, N['xprio'] or '?'):
         at = guard_atoms(st)
         lit = q.const_str(v)
         for a in at:
-            if a[0] == '==' and 'transition.priority' in (a[1], a[2]) and lit:
-                pr_exp[lit] = a[2] if a[1] == 'transition.priority' else a[1]
+            if a[0] == '==' and tprio in (a[1], a[2]) and lit:
+                pr_exp[lit] = a[2] if a[1] == tprio else a[1]
     run.check(pr_imp == pr_exp and set(pr_imp) == {'low', 'high'} and pr_imp.get('low') == 'Transition.LOW_PRIORITY' and pr_imp.get('high') == 'Transition.HIGH_PRIORITY', r3, 'io',
               'symbolic priorities low/high <-> LOW_PRIORITY/HIGH_PRIORITY in both directions', 'importer %s, exporter %s' % (pr_imp, pr_exp), None)
     pe, pother = SchemaModel.enum_of(schema.levels['transition']['priority']['value']) if 'priority' in schema.levels.get('transition', {}) else (None, [])
@@ -348,8 +415,8 @@ def check(run):
     run.check(consts.get('LOW_PRIORITY') == '-1' and consts.get('DEFAULT_PRIORITY') == '0' and consts.get('HIGH_PRIORITY') == '1', r3, 'Transition', 'LOW < DEFAULT < HIGH priority constants',
               'constants are %s' % consts, tcl.node)
     # numeric priorities and the default
-    dflt = [(st, v) for st, v in q.assigned_value(xi.node, 'priority') if q.const_str(v) is None]
-    run.check(len(dflt) == 1 and q.unparse(dflt[0][1]) == 'transition.priority', r3, 'exporter', 'other priorities exported as numbers', 'differs', xi.node)
+    dflt = [(st, v) for st, v in q.assigned_value(xi.node, N['xprio'] or '?') if q.const_str(v) is None]
+    run.check(len(dflt) == 1 and q.unparse(dflt[0][1]) == tprio, r3, 'exporter', 'other priorities exported as numbers', 'differs', xi.node)
 
     r4 = run.rule('C11.4', 'all name-bearing fields (state name, target, initial, memory) receive the same normalisation on import; stripping is confined to code-bearing fields')
     norm = {}
